@@ -183,7 +183,7 @@ def run(ctx):
 
     rng = ctx.rng("gen")
     work = Work()
-    budget = ctx.pick(35, 420)            # seconds for the generated part
+    budget = ctx.pick(35, 300)            # seconds for the generated part
     nfiles = ctx.pick(60, 900)
     t0 = time.time()
     cases, coq_cases, failures, refused = [], [], [], 0
@@ -202,6 +202,8 @@ def run(ctx):
                 ctx.hist("source", "generated")
             text = G.file_text(spec)
             res = run_generate(work, text, dm)
+            if k == 1:
+                t0 = time.time()          # the first call pays the import / configuration warm-up: not counted
             ctx.hist("generate", res[0] if res[0] == "ok" else "refused:" + res[1])
             if res[0] != "ok":
                 refused += 1
